@@ -24,7 +24,7 @@ def oc_harnesses():
                      defines=d, unwind=10, unwindset=["psf_fread.0:%d" % (flen + 9), "psf_memset.0:65", "strlen.0:70", "psf_binheader_readf.1:40", "snprintf.0:41", "snprintf.1:41",
                                                       "main.0:%d" % (flen + 2), "main.1:%d" % (flen + 2), "main.2:%d" % (flen + 2), "main.3:258", "main.2:258"],
                      checks="leak", include_env=("log_stub", "memfile", "memset_model", "snprintf_model", "libm_model"), timeout=400,
-                     tiers=("thorough",) if tag in ("aiff",) else ("quick", "thorough"),
+                     tiers=("thorough",),
                      functions=[openfn, "psf_close", "psf_allocate"], bounds="arbitrary file of 0..%d bytes (content and length symbolic), any parse outcome" % flen))
     return out
 HARNESSES = []
